@@ -23,7 +23,7 @@ from ..stategraph import bfs, fingerprint
 PROPERTY = 'C03'
 LEVEL = 'model_checking'
 LEVEL_TEXT = ("Exhaustive over FSM definitions (all transition tables with <=2 states x <=2 events and "
-              "3 states x 1 event; thorough: 3 x 2) as real edzed.FSM subclasses, each explored by an "
+              "3 states x 1 event; thorough: 3 x 2 with the any-state rules restricted to absent / reject / first state) as real edzed.FSM subclasses, each explored by an "
               "explicit-state search that applies every event / unknown event / Goto in every reachable "
               "state of the live block; plus catalogues for conditions, entry/exit actions, calc_output "
               "and chained transitions. Every step is compared with a reference interpreter's state, "
@@ -45,14 +45,14 @@ LOG = []        # per-execution ordered log shared by callbacks and the probe
 
 # ------------------------------------------------------------------ configurations
 
-def table_specs(ns, ne):
-    """All tables over ns states and ne events."""
+def table_specs(ns, ne, any_opts=None):
+    """All tables over ns states and ne events (any_opts: restrict the any-state rules)."""
     states = NAMES[:ns]
     opts = ['-', None] + states         # '-' = no rule
     cells = [(e, s) for e in EVS[:ne] for s in states]
     anys = EVS[:ne]
     for cv in itertools.product(opts, repeat=len(cells)):
-        for av in itertools.product(opts, repeat=len(anys)):
+        for av in itertools.product(any_opts or opts, repeat=len(anys)):
             rules = []
             for (e, s), t in zip(cells, cv):
                 if t != '-':
@@ -68,7 +68,9 @@ def configs(tier):
     for ns, ne in ((1, 1), (1, 2), (2, 1), (2, 2), (3, 1)):
         out.extend(table_specs(ns, ne))
     if tier == 'thorough':
-        out.extend(table_specs(3, 2))
+        # 3 states x 2 events: every combination of the 6 specific rules, any-state rules from
+        # {absent, reject, first state} (the full cross, 390 625 tables, needs over an hour)
+        out.extend(table_specs(3, 2, any_opts=['-', None, 'a']))
     # notations of the 'from states' column: None (any state), one name, 'a|b' (with blanks),
     # list / tuple of names, and an EMPTY sequence (an event that is known but has no transition)
     meaning = [['e', 'a', 'b'], ['e', 'b', 'c'], ['f', 'a|b', 'c'], ['g', None, 'a'], ['h', 'a', None]]
